@@ -182,7 +182,9 @@ pub fn run_pool(
     let _ = std::fs::remove_dir_all(&root);
     std::fs::create_dir_all(&root).expect("create shm root");
     let start = Instant::now();
-    let per_run_limit = 150.0;
+    // CPU seconds per run (see over_limit): thorough runs enumerate every byte / call / crash
+    // point of a history and are legitimately long
+    let per_run_limit = if tier == "thorough" { 1200.0 } else { 150.0 };
     let mut violations_seen = 0u32;
     let mut next = 0u64;
     let mut live: BTreeMap<i32, Child> = BTreeMap::new();
@@ -223,7 +225,7 @@ pub fn run_pool(
             // nobody finished: check time limits, then nap
             let over: Vec<i32> = live
                 .iter()
-                .filter(|(p, c)| over_limit(**p, c.started, per_run_limit, per_run_limit * 8.0))
+                .filter(|(p, c)| over_limit(**p, c.started, per_run_limit, per_run_limit * 6.0))
                 .map(|(p, _)| *p)
                 .collect();
             for p in over {
